@@ -215,8 +215,9 @@ VERIF_TARGET(c27_limits, nullptr, 160, 2200,
     HistoryHooks hooks;
     hooks.prefix = "c27";
     hooks.allow_disconnect = !no_disconnect;
+    // (the driver and the ops below Sync() after every pool-changing step, so LastSnap() is the state right before the submission)
     hooks.submit_tx = [&](const GenTx& g) {
-        const PoolSnap before = ms.Snapshot();
+        const PoolSnap before = ms.LastSnap();
         oracle.Before(g);
         MempoolAcceptResult r = ms.Submit(g.tx);
         const size_t usage_now = ms.pool().DynamicMemoryUsage();
@@ -225,7 +226,7 @@ VERIF_TARGET(c27_limits, nullptr, 160, 2200,
         return r;
     };
     hooks.submit_pkg = [&](const GenTx& g) {
-        const PoolSnap before = ms.Snapshot();
+        const PoolSnap before = ms.LastSnap();
         oracle.Before(g);
         PackageMempoolAcceptResult r = ms.SubmitPackage(g.package);
         const size_t usage_now = ms.pool().DynamicMemoryUsage();
@@ -292,20 +293,42 @@ VERIF_TARGET(c27_limits, nullptr, 160, 2200,
             st.cls("truc-burst");
             st.mix(uint64_t(4000 + n));
         } else {
-            // dusty package with prioritisation applied BEFORE submission: base fee f with delta -f (modified 0), or base 0 with delta +d
-            GenTx g = ms.GenOfKind(s, GenKind::DUSTY_PKG);
-            if (!g.package.empty()) {
-                const CTransactionRef parent = g.package.front();
-                CAmount in = 0, out = 0;
-                bool known = true;
-                for (const auto& i : parent->vin) { auto c = ms.LookupCoin(i.prevout); if (!c) { known = false; break; } in += c->value; }
-                for (const auto& ot : parent->vout) out += ot.nValue;
-                const unsigned mode = s.range<unsigned>(0, 2);
-                if (known && mode == 0 && in - out != 0) { ms.Prioritise(parent->GetHash(), -(in - out)); Note(st, "prioritise parent by ", -(in - out), " (base fee ", in - out, ")"); st.cls("dust-base-fee-hidden-by-delta"); }
-                if (known && mode == 1) { const CAmount d = s.pick<CAmount>({1, 1000, -1}); ms.Prioritise(parent->GetHash(), d); Note(st, "prioritise 0-fee parent by ", d); st.cls("dust-delta-on-zero-fee"); }
+            // dusty package with prioritisation applied BEFORE submission: base fee f with delta -f (modified 0), or base 0 with delta +d, or plain
+            const unsigned mode = s.range<unsigned>(0, 2);
+            auto sp = ms.Spendables();
+            TxPlan pp;
+            for (const auto& x : sp) {
+                if (x.unconfirmed || x.spent_by || x.coin.coinbase || x.coin.value < 1'000'000) continue;
+                pp.inputs = {x};
+                if (!s.chance(64)) break;
             }
-            h.Submit(g);
-            ms.Sync();
+            if (!pp.inputs.empty()) {
+                const bool anchor = s.boolean();
+                const CScript dust_spk = anchor ? P2AScript() : ms.sim().keys.Script(SpkType::ANYONE_P2WSH);
+                const CAmount thr = ModelDustThreshold(CTxOut(0, dust_spk));
+                pp.version = s.boolean() ? 3 : 2;
+                pp.fixed_outputs.emplace_back(s.pick<CAmount>({0, thr - 1, 1}), dust_spk);
+                pp.change_scripts = {ms.sim().keys.Script(SpkType::ANYONE_P2WSH)};
+                pp.fee = mode == 0 ? s.pick<CAmount>({200, 1, 5000}) : 0;
+                const CTransactionRef parent = ms.Build(pp);
+                TxPlan cp;
+                cp.version = pp.version;
+                for (uint32_t n = 0; n < 2; ++n) cp.inputs.push_back(Spendable{COutPoint(parent->GetHash(), n), RefCoin{parent->vout[n].nValue, parent->vout[n].scriptPubKey, -1, false}, true, std::nullopt});
+                cp.change_scripts = {ms.sim().keys.Script(SpkType::ANYONE_P2WSH)};
+                cp.fee = s.range<CAmount>(800, 6000);
+                const CTransactionRef child = ms.Build(cp);
+                if (mode == 0) { ms.Prioritise(parent->GetHash(), -pp.fee); st.cls("dust-base-fee-hidden-by-delta"); }
+                if (mode == 1) { ms.Prioritise(parent->GetHash(), s.pick<CAmount>({1, 1000, -1})); st.cls("dust-delta-on-zero-fee"); }
+                ms.Sync();
+                GenTx g;
+                g.kind = GenKind::DUSTY_PKG;
+                g.package = {parent, child};
+                g.tx = child;
+                g.fee = cp.fee;
+                g.note = strprintf("dusty package mode %d parent fee %d v%d", mode, pp.fee, pp.version);
+                h.Submit(g);
+                ms.Sync();
+            }
             st.cls("dust-with-priority-op");
         }
     }
